@@ -568,7 +568,9 @@ class CCITTFaxDecoder(CCITTG4Parser):
 def ccittfaxdecode(data: bytes, params: Dict[str, object]) -> bytes:
     K = params.get("K")
     if K == -1:
-        cols = cast(int, params.get("Columns"))
+        cols = cast(int, params.get("Columns", 1728))
+        if not isinstance(cols, int) or isinstance(cols, bool) or cols < 1:
+            raise PDFValueError("Invalid /Columns: %r" % (cols,))
         bytealign = cast(bool, params.get("EncodedByteAlign"))
         reversed = cast(bool, params.get("BlackIs1"))
         parser = CCITTFaxDecoder(cols, bytealign=bytealign, reversed=reversed)
